@@ -20,6 +20,15 @@ Theorem code_text_rejects : forall s : bytes,
 Proof. exact code_text_rejects_lemma. Qed.
 Print Assumptions code_text_rejects.
 
+(* ... where "defined name" is what Code.String prints, not what the parser happens to
+   know: a spelling the printer never produces (cancelled) is rejected *)
+Theorem code_text_rejects_undefined_names : forall s : bytes,
+  (forall c, assocN c code_names <> Some s) ->
+  (forall r, s = code_parse_prefix ++ r -> go_parse_int64 r = None) ->
+  code_unmarshal s = None.
+Proof. exact code_text_rejects_undefined_lemma. Qed.
+Print Assumptions code_text_rejects_undefined_names.
+
 Example code_text_rejects_nonvacuous :
   assocB [x66; x6f; x6f] code_parse_names = None /\
   (forall r, [x66; x6f; x6f] = code_parse_prefix ++ r -> go_parse_int64 r = None).
